@@ -1698,3 +1698,39 @@ def adv_own_rule(rep, F):
         srcs = {int(x.rsplit("@", 1)[1]) for x in o if x.startswith("call:") and x.split("@")[0].endswith("cbor_len")}
         if not nearest or nearest[0].bb not in srcs:
             rep.violation("ADV-own", "read_bounded_bytes|advance@%d" % advs.index(a), "read_bounded_bytes skips a head with a size that does not come from the cbor_len() call that read that head (it comes from %s): inside an indefinite byte string every chunk of 24 bytes or more has a two-byte head, the reader consumes it as if it had one byte - BigInt::from_bytes(to_bytes(2^512 + x)) fails, and with a trailing 0xff byte decodes to a different number" % ("an enclosing item's head" if srcs else "no cbor_len call"), {"line": a.line})
+
+
+def reader_order_rule(rep, F):
+    """RW-container: a CBOR reader fills an insertion-ordered field directly"""
+    rep.rule("RW-container", "in every CBOR reader (serialization::traits::Deserialize impl and its closures) that builds its type by a struct literal, a field of an insertion-ordered type (Vec<..>, LinkedHashMap<..>) is not computed through a sorted or hashed std container (BTreeMap / BTreeSet / HashMap / HashSet in the value's origins): the writer emits the entries in the field's order, so a reader that re-orders them returns a value that is not equal to the one that was written (LinkedHashMap equality is order-sensitive), with different keys() order, different re-encoded bytes and a different auxiliary-data hash")
+    import fieldflow as _ff
+    n = 0
+    for fid, fn in F.fns.items():
+        base = fid.split("::{closure")[0]
+        bf = F.fns.get(base) or {}
+        if (bf.get("impl_trait") or "") != "serialization::traits::Deserialize" or fn.get("derive") or "/tests/" in fn["file"]:
+            continue
+        adt = bf.get("self_adt")
+        if not adt or adt not in F.adts or F.adts[adt]["kind"] != "struct":
+            continue
+        fields = F.adts[adt]["variants"][0]["fields"]
+        ordered = [(i, f) for i, f in enumerate(fields) if re.search(r"(LinkedHashMap|std::vec::Vec)<", f["ty"])]
+        if not ordered:
+            continue
+        org = None
+        for bi, bb in enumerate(fn["bbs"]):
+            if bb["c"]:
+                continue
+            for st in bb["st"]:
+                if st[1] == "=" and st[3][0] == "agg" and st[3][1] == "adt" and st[3][2] == adt:
+                    org = org or _ff.Origins(F, fid)
+                    for i, f in ordered:
+                        if i >= len(st[3][4]):
+                            continue
+                        n += 1
+                        rep.inst("RW-container")
+                        o = org.of_operand(st[3][4][i])
+                        bad = sorted({x.split("@")[0][5:] for x in o if x.startswith("call:") and re.search(r"collections::(BTreeMap|BTreeSet|HashMap|HashSet)|collections::btree_map|collections::hash_map", x)})
+                        if bad:
+                            rep.violation("RW-container", "%s|%s" % (F.key(base), f["name"]), "the CBOR reader of %s computes the insertion-ordered field `%s` (%s) through %s: entries come back sorted / in hash order instead of in wire order - a value whose entries were inserted in another order does not decode to an equal value and re-encodes to different bytes" % (H_short(adt), f["name"], f["ty"][:60], ", ".join(H_short(b) for b in bad[:3])), {"file": fn.get("file")})
+    rep.floor("ordered fields built by CBOR readers", 20, n)
